@@ -45,13 +45,25 @@ structure VCap where
   rtx : Option Nat
 deriving DecidableEq, Repr
 
+/-- `T38Capability` (the fields `apply_image_config` writes) -/
+structure T38Cap where
+  pt : Nat
+  version : Nat
+  maxBitrate : Nat
+  rate : Str            -- `T38FaxRateManagement` as printed
+  maxBuffer : Nat
+  maxDatagram : Nat
+  ec : Str              -- `T38UdpEC` as printed
+deriving DecidableEq, Repr
+
 structure Cfg where
   mode : Mode
   legacySip : Bool            -- `sdp_compatibility == LegacySip`
   muxRequire : Bool           -- `rtcp_mux_policy == Require`
   audio : List ACap           -- `media_capabilities.audio` (empty = not configured)
   video : List VCap
-  sctpPort : Nat
+  sctpPort : Nat              -- `media_capabilities.application.sctp_port` (default 5000)
+  image : List T38Cap := []   -- `media_capabilities.image` (empty = not configured)
 deriving DecidableEq, Repr
 
 def defaultACap : ACap :=
@@ -136,10 +148,16 @@ def videoCapStep (fa : List Str × List Attr) (v : VCap) : List Str × List Attr
 def applyVideoConfig (c : Cfg) : List Str × List Attr :=
   c.videoCaps.foldl videoCapStep (c.videoCaps.map (fun v => natStr v.pt), muxAttr c)
 
-def t38Attrs : List Attr :=
-  [attr "T38FaxVersion" "0".toList, attr "T38MaxBitRate" (natStr defT38MaxBitrate),
-   attr "T38FaxRateManagement" "transferredTCF".toList, attr "T38FaxMaxBuffer" "1024".toList,
-   attr "T38FaxMaxDatagram" "238".toList, attr "T38FaxUdpEC" "t38UDPRedundancy".toList]
+def defaultT38 : T38Cap :=
+  ⟨defT38Pt, 0, defT38MaxBitrate, "transferredTCF".toList, 1024, 238, "t38UDPRedundancy".toList⟩
+
+def t38AttrsOf (t : T38Cap) : List Attr :=
+  [attr "T38FaxVersion" (natStr t.version), attr "T38MaxBitRate" (natStr t.maxBitrate),
+   attr "T38FaxRateManagement" t.rate, attr "T38FaxMaxBuffer" (natStr t.maxBuffer),
+   attr "T38FaxMaxDatagram" (natStr t.maxDatagram), attr "T38FaxUdpEC" t.ec]
+
+/-- `apply_image_config`: one format and six attributes PER configured T.38 capability -/
+def imageCaps (c : Cfg) : List T38Cap := if c.image.isEmpty then [defaultT38] else c.image
 
 /-! ### reading capabilities back from a remote section (`to_audio_capabilities`, video clock) -/
 
@@ -196,9 +214,11 @@ def deriveAnswerAudio (remote : Media) (loc : List ACap) : List ACap :=
                              then (match rc.fmtp with | some f => some f | none => lc.fmtp) else lc.fmtp }
     | none => none
 
-/-- `reinvite_answer_audio_capabilities` (answers only; `hasLocal` = a local description exists) -/
-def reinviteAudioCaps (c : Cfg) (remote : List Media) (hasLocal : Bool) (mid : Str) : Option (List ACap) :=
-  if !hasLocal then none else
+/-- `reinvite_answer_audio_capabilities` (answers only). Since the round-2 `fix:` ("create_answer intersects
+the audio codecs with the offer on the first negotiation too") the function no longer reads whether a
+local description exists; `hasLocal` is kept as an (ignored) input so that the driver line format and
+`Legacy.reinviteAudioCaps` stay comparable. -/
+def reinviteAudioCaps (c : Cfg) (remote : List Media) (_hasLocal : Bool) (mid : Str) : Option (List ACap) :=
   let rs := if mid.isEmpty then remote.find? (fun s => s.kind = .audio)
             else remote.find? (fun s => s.kind = .audio && s.mid = mid)
   match rs with
@@ -206,6 +226,10 @@ def reinviteAudioCaps (c : Cfg) (remote : List Media) (hasLocal : Bool) (mid : S
   | some r =>
     let caps := deriveAnswerAudio r c.audioCaps
     if caps.isEmpty then none else some caps
+
+/-- the function before that fix: the first answer (no local description yet) never intersected -/
+def Legacy.reinviteAudioCaps (c : Cfg) (remote : List Media) (hasLocal : Bool) (mid : Str) : Option (List ACap) :=
+  if !hasLocal then none else RtcModel.Answer.reinviteAudioCaps c remote hasLocal mid
 
 /-- `apply_audio_capabilities` -/
 def applyAudioCaps (fa : List Str × List Attr) (caps : List ACap) : List Str × List Attr :=
@@ -348,7 +372,7 @@ def codecPart (c : Cfg) (k : Kind) (remote : List Media) (hasLocal : Bool) (mid 
     | none => fa
   | .video => mergeRemoteRtx remote mid (stripRtx (applyVideoConfig c))
   | .application => (["webrtc-datachannel".toList], [attr "sctp-port" (natStr c.sctpPort)])
-  | .image => ([natStr defT38Pt], t38Attrs)
+  | .image => ((imageCaps c).map (fun t => natStr t.pt), (imageCaps c).flatMap t38AttrsOf)
 
 /-- `populate_media_capabilities(.., Answer)` followed by the rtcp-mux retain -/
 def capabilities (c : Cfg) (k : Kind) (remote : List Media) (hasLocal : Bool) (role : Option Bool)
@@ -374,10 +398,21 @@ def answerOrder (ts : List TrxView) : List Media → List Nat → List (Nat × B
   | [], _, acc => some acc.reverse
   | s :: rest, used, acc =>
     let found :=
-      if !s.mid.isEmpty then findIdxFrom (fun i t => !used.contains i && t.mid = some s.mid) ts 0
+      if !s.mid.isEmpty then findIdxFrom (fun i t => !used.contains i && t.kind = s.kind && t.mid = some s.mid) ts 0
       else findIdxFrom (fun i t => !used.contains i && t.kind = s.kind) ts 0
     match found with
     | some i => answerOrder ts rest (i :: used) ((i, s.attrs.any (fun a => a.key = "rtcp-mux".toList)) :: acc)
+    | none => none
+
+/-- the matching before the round-2 `fix:` that added the kind test to the MID match -/
+def Legacy.answerOrder (ts : List TrxView) : List Media → List Nat → List (Nat × Bool) → Option (List (Nat × Bool))
+  | [], _, acc => some acc.reverse
+  | s :: rest, used, acc =>
+    let found :=
+      if !s.mid.isEmpty then findIdxFrom (fun i t => !used.contains i && t.mid = some s.mid) ts 0
+      else findIdxFrom (fun i t => !used.contains i && t.kind = s.kind) ts 0
+    match found with
+    | some i => Legacy.answerOrder ts rest (i :: used) ((i, s.attrs.any (fun a => a.key = "rtcp-mux".toList)) :: acc)
     | none => none
 
 def offeredBundle (sessionAttrs : List Attr) : Bool :=
@@ -465,6 +500,31 @@ def secDirOk (o a : Media) : Bool := dirCompatible o.dir a.dir
 def secSetupOk (o a : Media) : Bool :=
   match setupOf a with | some s => setupCompatible (setupOf o) s | none => true
 
+/-- the offerer's `a=setup` for a section: media level, else session level (RFC 8866: a session-level
+attribute applies to every section that does not override it) -/
+def sessionSetup (sess : List Attr) : Option Str := (sess.find? (fun a => a.key = "setup".toList)).bind (·.value)
+def offeredSetup (sess : List Attr) (o : Media) : Option Str :=
+  match setupOf o with | some v => some v | none => sessionSetup sess
+def secSetupOkS (sess : List Attr) (o a : Media) : Bool :=
+  match setupOf a with | some s => setupCompatible (offeredSetup sess o) s | none => true
+
+/-- `(payload type, codec name, clock)` of every `a=rtpmap` -/
+def bindings (m : Media) : List (Str × Str × Str) :=
+  (attrVals m.attrs "rtpmap").filterMap fun v =>
+    match splitOnce ' ' v with
+    | none => none
+    | some (pt, rest) =>
+      match splitOn '/' (trim rest) with
+      | n :: c :: _ => some (pt, n, c)
+      | [n] => some (pt, n, [])
+      | [] => none
+
+/-- reported separately (NOT a conjunct of `validAnswer`, the property speaks of payload type numbers only):
+an offered payload type that the answer uses is bound to the codec the offer bound it to -/
+def secBindOk (o a : Media) : Bool :=
+  (bindings a).all fun x => !o.formats.contains x.1 ||
+    (bindings o).all fun y => y.1 != x.1 || (eqIgnoreAsciiCase y.2.1 x.2.1 && y.2.2 = x.2.2)
+
 def secValid (o a : Media) : Bool :=
   secAligned o a && secPtsOk o a && secRtxOk o a && secExtOk o a && secMuxOk o a && secDirOk o a && secSetupOk o a
 
@@ -483,6 +543,7 @@ def zipAll (f : Media → Media → Bool) : List Media → List Media → Bool
 
 /-- **ValidAnswer** -/
 def validAnswer (offer : Desc) (a : Answer) : Bool :=
-  zipAll secValid offer.media a.sections && bundleOk offer.session.attrs a
+  zipAll secValid offer.media a.sections && bundleOk offer.session.attrs a &&
+    zipAll (secSetupOkS offer.session.attrs) offer.media a.sections
 
 end RtcModel.Answer
